@@ -236,6 +236,22 @@ def gen_plant(rng, maxlen):
             "fill": [0] * 8, "layout": lay, "events": evs}
 
 
+def directed():
+    """short histories around the time limit, for both safe states: commanded open, switches never confirm /
+    confirm late / confirm in time"""
+    out = []
+    lay = {"bytes": False, "open": [0, 0], "closed": [0, 1], "coil": [0, 2]}
+    for safe in (False, True):
+        for mt in (0, 1, 3, 5 * 1024):
+            for tgt in (0, 1):
+                for d in (0, max(mt - 1, 0), mt, mt + 1):
+                    for sw in ((0, 0), (1, 0), (0, 1), (1, 1)):
+                        evs = [["r"], ["t", tgt], ["u"], ["s", 0, 0], ["a", d], ["u"], ["s", sw[0], sw[1]], ["u"], ["a", mt], ["u"]]
+                        out.append({"safe": safe, "mt": mt, "mtint": True, "t0": 4096, "open": 0, "closed": 1, "coil": False,
+                                    "fill": [0] * 8, "layout": lay, "events": evs})
+    return out
+
+
 def classify(steps, case):
     f = t = 0
     for s in steps:
@@ -249,7 +265,8 @@ def classify(steps, case):
 
 def run(ctx):
     maxlen = ctx.n(30, 60)
-    cases = [gen(ctx.rng, maxlen) for _ in range(ctx.n(12000, 100000))]
+    cases = directed()           # small histories first: the first failing case is the replay
+    cases += [gen(ctx.rng, maxlen) for _ in range(ctx.n(12000, 100000))]
     cases += [gen_plant(ctx.rng, maxlen) for _ in range(ctx.n(1500, 10000))]
     impl = []
     for c in cases:
